@@ -273,6 +273,10 @@ def handle (j : Json) : P Json := do
     | "npmin" => pure (exceptVal (a.npCompared false b))
     | "to" => do let u ← jUnit (← fld j "unit"); pure (exceptVal (a.to u))
     | "shift" => do let k ← jInt (← fld j "k"); pure (exceptVal (a.shiftBy k))
+    | "shiftd" => do
+      match b with
+      | .q d => pure (exceptVal (a.shiftByDuration d))
+      | _ => throw "shiftd needs a scalar duration"
     | "round" => do let n ← jInt (← fld j "n"); pure (exceptVal (.ok (a.round n.toNat)))
     | "avgocc" => pure (exceptVal (nbAvgHourlyOccurrences a b))
     | _ => throw s!"unknown op {op}"
